@@ -233,8 +233,9 @@ static void recBrng(void)
 			{0, 32, 0, 7, 0}, {100, 28, 4, 0, 0}, {1, 1, 1, 29, 33}, {31, 2, 0, 0, 0}};
 		for (i = 0; i < 8; ++i)
 		{
-			vxRandBuf(key, 32); ivClass(iv, i == 3 ? 32 : i == 5 ? 8 : 0, 0);
-			sprintf(cls, "steps:%u", (unsigned)i);
+			int nff = i == 3 ? 32 : i == 5 ? 8 : i == 6 ? 31 : 0;
+			vxRandBuf(key, 32); ivClass(iv, nff, 0);
+			sprintf(cls, "steps:%u:iv:ff=%d", (unsigned)i, nff);
 			recCTRSteps(key, iv, seqs[i], 5, i % 2, cls);
 		}
 	}
